@@ -47,6 +47,7 @@ type interpreter struct {
 	sideOrder []*value
 	objSeq    int
 	bigSym    map[*value]*Term
+	fs        *vfs
 }
 
 type deferred struct {
